@@ -51,6 +51,11 @@ def need (args : Array α) (n : Nat) : Except String Unit :=
   | "identity" => need x 0; return toArray G.identity
   | "matrix" => need x G.rep; return matToArray (G.matrix (ofArray _ x))
   | "compose" => need x (2 * G.rep); return toArray (G.composition (ofArray _ x) (ofArray _ x G.rep))
+  | "mulassign" => need x (2 * G.rep); return toArray (G.composition (ofArray _ x) (ofArray _ x G.rep))
+  | "fcompose" => need x (2 * G.rep); return toArray (G.composition (ofArray _ x) (ofArray _ x G.rep))
+  | "sqassign" => need x G.rep; return toArray (G.composition (ofArray _ x) (ofArray _ x))
+  | "mulassign_map" => need x G.rep; return toArray (G.composition (ofArray _ x) (ofArray _ x))
+  | "finverse" => need x G.rep; return toArray (G.inverse (ofArray _ x))
   | "compose3l" =>
     need x (3 * G.rep)
     return toArray (G.composition (memoV (G.composition (ofArray _ x) (ofArray _ x G.rep))) (ofArray _ x (2 * G.rep)))
